@@ -74,7 +74,7 @@ def _pointer_stores(F, path):
     return (sorted(set(problems)) or "%d running paths, both stores on each" % runs), not problems
 
 
-def run(rep, tier, parts=("jit", "ctor", "interp", "cranelift")):
+def run(rep, tier, parts=("jit", "jit-base", "ctor", "interp", "cranelift")):
     cx = Ctx(rep, "std")
     F = cx.F
     jm = jitmodel.JitModel(cx)
@@ -145,6 +145,25 @@ def run(rep, tier, parts=("jit", "ctor", "interp", "cranelift")):
                     bad.setdefault(tuple(diffs[:2]), []).append(sreg)
             rep.ob(rl, "opc=%#04x" % v, not bad, "opcode %#04x (%s): JIT template vs interpreter for %d index registers" % (v, d["kind"], len(list(srcs))),
                    expected="equal effect summaries", found=[(list(k), regs) for k, regs in bad.items()][:2] or "agree")
+        # ---- the register the prologue loads the packet address into still holds it when a legacy load runs: no
+        # template of any other instruction writes it (R09.l evaluates the load templates under that invariant)
+        if "jit-base" in parts:       # (under C03 the same fact is part of R03.a's comparison)
+            rp = rep.rule("R09.p", "x86 JIT: no instruction template changes the register that holds the packet address, nor leaves the machine stack unbalanced", floor=100)
+            for v, d in sorted(isa.TABLE.items()):
+                if d["kind"] in ("call", "tail_call", "exit"):
+                    continue        # helper / local calls and the epilogue: C07 / C08 (native call sequence), R09.j (epilogue)
+                bad = {}
+                for dd, sreg in c03.QUICK_PAIRS:
+                    if dd == 10 and not isa.is_store(d):
+                        dd = 9
+                    jps, problems = c03.jit_paths(jm, v, dd, sreg)
+                    for jp in jps:
+                        if T.FALSE in jp["conds"]:
+                            continue
+                        for b in jp["bad"]:
+                            bad.setdefault(b, []).append((dd, sreg))
+                rep.ob(rp, "opc=%#04x" % v, not bad, "opcode %#04x (%s): packet base register and stack balance over %d register pairs" % (v, d["kind"], len(c03.QUICK_PAIRS)),
+                       expected="unchanged", found=[(k, prs[:4]) for k, prs in bad.items()][:2] or "unchanged")
         # ---- wrappers: flags and arguments
         rw = rep.rule("R09.b", "wrappers pass the documented flags / slices; empty packet -> null in compiled paths", floor=6)
         flags_want = {"EbpfVmMbuff": [True, False], "EbpfVmFixedMbuff": [True, True], "EbpfVmRaw": [False, False]}
